@@ -284,7 +284,10 @@ func suiteC11(s *Suite, rng *Rng, tier string) {
 			}
 		}
 	}
-	s.Notes["rule"] = "scripts of depth 3..6 over {prepare cache, revoke other, revoke self, update witness, prove} on a credential (256- and 1024-bit keys); commit / refresh / " +
+	for _, kp := range keys {
+		c11Forge(s, rng, kp)
+	}
+	s.Notes["rule"] = "cheating prover with a revoked credential and degenerate commitments (C_u = 0, N, 2N; C_r = 0); scripts of depth 3..6 over {prepare cache, revoke other, revoke self, update witness, prove} on a credential (256- and 1024-bit keys); commit / refresh / " +
 		"responses recomputed by the model from observed randomness; per proof: every single-field alteration of the non-revocation part, accumulator substitutions, " +
 		"cross-credential transplant, stale witness with newer accumulator; distinct by (script, step, kind)"
 }
@@ -292,3 +295,90 @@ func suiteC11(s *Suite, rng *Rng, tier string) {
 func cuOf(c *revocation.ProofCommit) *gbig.Int { cu, _, _, _, _, _ := c.VerifState(); return cu }
 func crOf(c *revocation.ProofCommit) *gbig.Int { _, cr, _, _, _, _ := c.VerifState(); return cr }
 func nuOf(c *revocation.ProofCommit) *gbig.Int { _, _, nu, _, _, _ := c.VerifState(); return nu }
+
+// c11Forge: a holder whose credential was revoked (so that no valid witness exists for the current accumulator)
+// tries degenerate commitments: C_u = 0 (mod N) makes the relation nu = C_u^alpha * h^(-beta) hold vacuously in
+// the verifier's reconstruction; everything else is computed honestly. The verifier must reject.
+func c11Forge(s *Suite, rng *Rng, kp *KeyPair) {
+	pk := kp.Pk
+	n := pk.N
+	for _, variant := range []string{"Cu=0", "Cu=N", "Cu=2N", "Cu=0,Cr=0"} {
+		h := newRevHistory(kp)
+		secret := newSecret(rng)
+		w, err := revocation.RandomWitness(kp.Sk, h.accs[0])
+		if err != nil {
+			panic(err)
+		}
+		sa, _ := h.accs[0].Sign(kp.Sk)
+		w.SignedAccumulator = sa
+		attrs := []*gbig.Int{secret, rng.Bits(100), rng.Bits(200), w.E}
+		sig, err := gabi.SignMessageBlock(kp.Sk, pk, attrs)
+		if err != nil {
+			panic(err)
+		}
+		cred := &gabi.Credential{Signature: sig, Pk: pk, Attributes: attrs, NonRevocationWitness: w}
+		h.revoke(w.E) // the issuer revokes this very credential
+		last := h.accs[len(h.accs)-1]
+		sacc, _ := last.Sign(kp.Sk)
+		if err := w.Update(pk, h.window(1, 1)); err != revocation.ErrorRevoked {
+			s.Violate("C11:revoked-witness-updated", fmt.Sprintf("update of a revoked witness returned %v", err), L{variant})
+			continue
+		}
+		ctx, nonce := rng.Bits(200), rng.Bits(80)
+		b, err := cred.CreateDisclosureProofBuilder([]int{1}, nil, false)
+		if err != nil {
+			panic(err)
+		}
+		_, _, _, rands, _ := b.VerifState()
+		rands[3] = revocation.NewProofRandomizer() // the size an honest non-revocation builder uses
+		skr := new(gbig.Int).Add(pow2(pk.Params.LmCommit-1), rng.Bits(int(pk.Params.LmCommit)-2))
+		contribs, err := b.Commit(map[string]*gbig.Int{"secretkey": skr})
+		if err != nil {
+			panic(err)
+		}
+		rAlpha := rands[3]
+		e := w.E
+		eps, zeta := rng.Bits(300), rng.Bits(300)
+		rBeta, rDelta, rEps, rZeta := rng.Bits(800), rng.Bits(800), rng.Bits(500), rng.Bits(500)
+		exp := func(b, x *gbig.Int) *gbig.Int { return new(gbig.Int).Exp(b, x, n) }
+		mul := func(xs ...*gbig.Int) *gbig.Int {
+			r := bi(1)
+			for _, x := range xs {
+				r.Mul(r, x).Mod(r, n)
+			}
+			return r
+		}
+		inv := func(x *gbig.Int) *gbig.Int { return new(gbig.Int).ModInverse(x, n) }
+		cr := mul(exp(pk.G, eps), exp(pk.H, zeta))
+		c1 := mul(exp(pk.G, rEps), exp(pk.H, rZeta))
+		c3 := mul(exp(cr, rAlpha), inv(exp(pk.G, rBeta)), inv(exp(pk.H, rDelta)))
+		cu := bi(0)
+		switch variant {
+		case "Cu=N":
+			cu = new(gbig.Int).Set(n)
+		case "Cu=2N":
+			cu = new(gbig.Int).Lsh(n, 1)
+		case "Cu=0,Cr=0":
+			cr, c1, c3 = bi(0), bi(0), bi(0)
+		}
+		c2 := bi(0)
+		all := append(append([]*gbig.Int{}, contribs...), cr, cu, last.Nu, c1, c2, c3)
+		c := gabi.VerifCreateChallenge(ctx, nonce, all, false)
+		proof := b.CreateProof(c).(*gabi.ProofD)
+		resp := func(r, x *gbig.Int) *gbig.Int { return new(gbig.Int).Add(r, new(gbig.Int).Mul(c, x)) }
+		proof.NonRevocationProof = &revocation.Proof{
+			Cr: cr, Cu: cu,
+			Responses: map[string]*gbig.Int{
+				"beta": resp(rBeta, new(gbig.Int).Mul(e, eps)), "delta": resp(rDelta, new(gbig.Int).Mul(e, zeta)),
+				"epsilon": resp(rEps, eps), "zeta": resp(rZeta, zeta),
+			},
+			SignedAccumulator: sacc,
+		}
+		_, acc, amb := verifyCase(s, fmt.Sprintf("%d:forged:%s", kp.Bits, variant), false, []*gabikeys.PublicKey{pk}, ctx, nonce, false, nil, gabi.ProofList{proof})
+		s.Nontrivial[fmt.Sprint("forge", kp.Bits, variant)] = true
+		if acc && !amb {
+			s.Violate("C11:forged-nonrev-accepted:"+variant, "a holder of a REVOKED credential produced an accepted non-revocation proof against the current accumulator using the degenerate commitment "+variant,
+				L{variant, kp.Bits})
+		}
+	}
+}
